@@ -44,7 +44,9 @@ def files():
     m = lambda *a, **k: G.add_method(svc, *a, **k)
     m("GetThing", P + ".GetThingRequest", P + ".Thing", http=("get", "/v1/{name=shelves/*/things/*}"), signatures=["name"])
     m("ListThings", P + ".ListThingsRequest", P + ".ListThingsResponse", http=("get", "/v1/{parent=shelves/*}/things"), signatures=["parent"])
-    m("StartThing", P + ".StartRequest", ".google.longrunning.Operation", http=("post", "/v1/{name=shelves/*/things/*}:start"), body="*", lro=("Thing", "StartMeta"))
+    # (a signature entry that is a dotted path: the client's parameter is the leaf name)
+    m("StartThing", P + ".StartRequest", ".google.longrunning.Operation", http=("post", "/v1/{name=shelves/*/things/*}:start"), body="*", lro=("Thing", "StartMeta"),
+      signatures=["name,thing.title"])
     m("WatchThings", P + ".ListThingsRequest", P + ".Thing", server_streaming=True)
     m("UploadThings", P + ".ChatMessage", P + ".Thing", client_streaming=True)
     m("Chat", P + ".ChatMessage", P + ".ChatMessage", client_streaming=True, server_streaming=True)
